@@ -251,6 +251,11 @@ func c11RunAll(c *core.Ctx) {
 	facesU := append(append(append([]s2.CellID(nil), sixFaces...), c11Subtree(face(0), 1)[1:]...), c11Subtree(face(5), 1)[1:]...)
 	s1 = append(s1, s1u{c11NewUniv("L28-last-cell-of-face5-depth2", c11Subtree(l28last, 2), c11Outside(l28last)), thorough})
 	s1 = append(s1, s1u{c11NewUniv("six-faces+children-of-face0-and-face5", facesU, []s2.CellID{c11Path(0, 0, 0), c11Path(5, 3, 3), c11Leaf(0), c11Leaf(c11EndG - 1), c11Path(2, 1)}), true})
+	// faces 0..3 differ only in the two bits that a sibling test looks at, so "three whole faces + the
+	// four children of the fourth" is the one configuration in which a cascade can reach a face cell
+	// that looks like the last of four siblings
+	facesV := append(append(append([]s2.CellID(nil), sixFaces...), c11Subtree(face(3), 1)[1:]...), c11Subtree(face(4), 1)[1:]...)
+	s1 = append(s1, s1u{c11NewUniv("six-faces+children-of-face3-and-face4", facesV, []s2.CellID{c11Path(3, 0, 0), c11Path(4, 3, 3), c11Path(2, 1)}), true})
 	if thorough {
 		s1 = append(s1, s1u{c11NewUniv("chain-depth5-along-child3-from-L1", c11Chain(c11Path(1, 2), 5, 3), c11Outside(c11Path(1, 2))), false})
 		s1 = append(s1, s1u{c11NewUniv("face2-depth2", c11Subtree(face(2), 2), append(c11Outside(face(2)), c11Path(2, 1, 1, 1), c11Path(2, 3, 3, 3, 3))), false})
